@@ -219,7 +219,7 @@ class PreprocessorData:
             macro_resolve_error(
                 self.curr_tree,
                 f"'pad' requires the current address to be op-aligned (a multiple of 2*w={op_size} bits), "
-                f"but it's currently {self.curr_address} bits "
+                f"but it's currently {Expr(self.curr_address)} bits "
                 f"(this usually happens after a 'reserve' or 'segment' that isn't 2*w-aligned).",
             )
         ops_to_pad = (-self.curr_address // op_size) % ops_alignment
@@ -258,7 +258,7 @@ def get_pad_ops_alignment(op: Pad, preprocessor_data: PreprocessorData) -> int:
     if ops_alignment <= 0:
         macro_resolve_error(
             preprocessor_data.curr_tree,
-            f"'pad' must get a positive ops-alignment, but got {ops_alignment}. In {op.code_position}.",
+            f"'pad' must get a positive ops-alignment, but got {Expr(ops_alignment)}. In {op.code_position}.",
         )
     return ops_alignment
 
